@@ -1,6 +1,139 @@
-(* C06 - placeholder while the correspondence is being set up *)
+(* C06 - Flow and action lifetimes are bounded by the parent flow (Colang 2).
+   Property theorems only; every proof is `exact <lemma>`; Print Assumptions beneath each.
+
+   Model: V2/Life.v - transcriptions of _abort_flow (`abort`), _finish_flow (`finish`), the
+   EndScope case of slide (`end_scope`), _update_action_status_by_event (`action_event`) and
+   the end-of-slide guard of _advance_head_front (`end_of_slide`).  The model is tied to
+   statemachine.py on every run by (T) Gen/LifeConsts.v (shape of the three Stop guards, the
+   release of shared actions at a scope end) and (X) the function-level snapshot
+   correspondence of harness/c06.py.
+
+   All theorems hold for ANY number of instances and actions and any depth of the hierarchy.
+   `ranked rk s` = the children relation is well-founded (checked on every real pre-state by
+   the harness); `abort n .. = Ok s'` excludes the out-of-fuel result, which `C06_fuel_sufficient`
+   shows cannot occur with fuel above the rank. *)
 From Coq Require Import ZArith NArith List Bool.
-From NG Require Import V2.Life.
-Theorem C06_placeholder : listening FStarted = true.
-Proof. exact eq_refl. Qed.
-Print Assumptions C06_placeholder.
+From NG Require Import Gen.LifeConsts V2.Life V2.Life_proofs V2.Life_scope V2.Life_fuel V2.Life_now
+                       V2.Life_examples.
+Import ListNotations.
+Open Scope N_scope.
+
+(* (T) the current source has the modelled Stop guards and releases shared actions at a scope end *)
+Theorem C06_source_shape : stop_guards_checked = true /\ scope_release_shared = true.
+Proof. exact source_shape. Qed.
+Print Assumptions C06_source_shape.
+
+(* After _abort_flow / _finish_flow of a running instance f (run to the end of the recursion) f is
+   not running and no flow started by f - transitively, through running instances, activated
+   flows excluded - is listening. *)
+Theorem C06_children_stop :
+  (forall rk n s f d s',
+     ranked rk s -> abort n s f d = Ok s' -> proceeds s f d = true -> lv s f = true ->
+     lv s' f = false /\ forall x, started_by s f x -> lst s' x = false) /\
+  (forall rk n s f d s',
+     ranked rk s -> finish n s f d = Ok s' -> proceeds s f d = true -> lst s f = true ->
+     forall x, started_by s f x -> lst s' x = false).
+Proof. exact (conj abort_children_stop finish_children_stop). Qed.
+Print Assumptions C06_children_stop.
+
+(* Stop events of one _abort_flow / _finish_flow: per action at most one; exactly for the actions
+   that were STARTING/STARTED and are STOPPING with count 0 afterwards; only inside the subtree;
+   every unfinished action of the ending instance gives up one share - the last share (count 1)
+   means exactly one Stop, an action still shared (count stays positive) gets none. *)
+Theorem C06_stop_once :
+  (forall n, stop_once_statement (abort n) live) /\
+  (forall n, stop_once_statement (finish n) listening).
+Proof. exact (conj abort_stop_once finish_stop_once). Qed.
+Print Assumptions C06_stop_once.
+
+(* Over ANY sequence of the modelled operations (abort, finish, scope end, action events other
+   than a second Start) no action is ever sent a second Stop, and every Stop is emitted for an
+   action that is STARTING or STARTED at that moment (never INITIALIZED, STOPPING, FINISHED). *)
+Theorem C06_no_spurious_stop :
+  (forall rk rel fuel ops s s',
+     ranked rk s -> Forall allowed ops -> lrun rel fuel ops s = Ok s' -> out s = [] ->
+     forall a, (nstops a (out s') <= 1)%nat) /\
+  (forall rk rel fuel s o s',
+     ranked rk s -> lstep rel fuel s o = Ok s' ->
+     exists delta, out s' = out s ++ delta /\
+       forall a, (nstops a delta >= 1)%nat ->
+         (exists c, geta s a = Some c /\ active (a_status c) = true) /\
+         geta s' a = Some (mkAct AStopping 0%Z)).
+Proof.
+  exact (conj (fun rk rel fuel ops s s' Hr Ha H Ho a =>
+                 proj1 (trace_stop_once rk rel fuel ops s s' Hr Ha H (StopInv_nil s Ho) a))
+              step_stop_only_active).
+Qed.
+Print Assumptions C06_no_spurious_stop.
+
+(* EndScope, with the release as read from the current source: stops exactly the flows and
+   actions registered in the scope; a shared action that keeps running is no longer held by the
+   flow (no second release); everything else is unchanged. *)
+Theorem C06_scope_end : scope_end_statement.
+Proof. exact scope_end_now. Qed.
+Print Assumptions C06_scope_end.
+
+(* Whole-state frame: instances outside the subtree of f keep every field (their children lists
+   lose only instances of the subtree), actions not owned inside the subtree are unchanged, and
+   everything emitted concerns the subtree. *)
+Theorem C06_frame :
+  (forall rk n s f d s', ranked rk s -> abort n s f d = Ok s' -> frame (reach s f) (owned s f) s s') /\
+  (forall rk n s f d s', ranked rk s -> finish n s f d = Ok s' -> frame (reach s f) (owned s f) s s').
+Proof. exact (conj abort_frame finish_frame). Qed.
+Print Assumptions C06_frame.
+
+(* Activation.  (1),(2) an instance that ends by itself (d = false) emits, as its last events,
+   FlowFailed / FlowFinished followed by exactly the restart (StartFlow pushed left, source = its
+   reference instance, marker = its count) iff it is activated and has not already started its
+   next instance; ended by an activator (d = true) it is not restarted; nothing emitted before
+   concerns f.  (3) the main flow restarts in place.  (4) an activator ends while others remain:
+   only the count is decremented.  (5) the last activator ends: count 0, instance not running.
+   (6) an activated flow that reaches its end without ever having waited is not finished (runs
+   once, stays activated).
+   PARTIAL: that `activated` equals the number of running activators (incremented where StartFlow
+   is processed) and that the emitted StartFlow creates the new instance are outside the focused
+   model; both are checked on the implementation by the activation oracle of harness/c06.py. *)
+Theorem C06_activation_partial :
+  (forall rk n s f d s' i,
+     ranked rk s -> abort n s f d = Ok s' -> proceeds s f d = true -> getf s f = Some i ->
+     live (i_status i) = true ->
+     exists pre, out s' = out s ++ pre ++ EFailed f :: (if d then [] else restart_events s i f) /\
+                 Forall (emit_ok (below rk f) anyA) pre) /\
+  (forall rk n s f d s' i,
+     ranked rk s -> finish n s f d = Ok s' -> proceeds s f d = true -> getf s f = Some i ->
+     listening (i_status i) = true -> i_flow i <> main_id ->
+     exists pre, out s' = out s ++ pre ++ EFinished f :: (if d then [] else restart_events s i f) /\
+                 Forall (emit_ok (below rk f) anyA) pre) /\
+  (forall rk n s f d s' i,
+     ranked rk s -> finish n s f d = Ok s' -> proceeds s f d = true -> getf s f = Some i ->
+     listening (i_status i) = true -> i_flow i = main_id ->
+     (exists i', getf s' f = Some i' /\ i_status i' = FWaiting) /\
+     exists pre, out s' = out s ++ pre /\ Forall (emit_ok (below rk f) anyA) pre) /\
+  (forall n s f i,
+     getf s f = Some i -> is_ref_activated s i = Ok true -> i_activated i <> 1%Z ->
+     abort (S n) s f true = Ok (modf s f (set_activated (i_activated i - 1)%Z)) /\
+     finish n s f true = Ok (modf s f (set_activated (i_activated i - 1)%Z))) /\
+  (forall rk n s f s' i,
+     ranked rk s -> getf s f = Some i -> is_ref_activated s i = Ok true -> i_activated i = 1%Z ->
+     abort n s f true = Ok s' ->
+     lv s' f = false /\ exists i', getf s' f = Some i' /\ i_activated i' = 0%Z) /\
+  (forall activated waiting,
+     (0 < activated)%Z -> end_of_slide FStarting activated true waiting = (FStarted, true, false)).
+Proof.
+  exact (conj abort_emits (conj finish_emits (conj finish_main (conj deactivate_not_last
+        (conj deactivate_last end_of_slide_activated))))).
+Qed.
+Print Assumptions C06_activation_partial.
+
+(* out of fuel = the children relation is not well-founded *)
+Theorem C06_fuel_sufficient :
+  (forall rk n s f d, ranked rk s -> (rk f < n)%nat -> abort n s f d <> Err EFuel) /\
+  (forall rk n s f d, ranked rk s -> (rk f <= n)%nat -> finish n s f d <> Err EFuel).
+Proof. exact (conj abort_nofuel finish_nofuel). Qed.
+Print Assumptions C06_fuel_sufficient.
+
+(* regression documentation: WITHOUT the release at a scope end a Stop is sent for an action that
+   a still-running flow holds (the defect repaired by _release_shared_action) *)
+Theorem C06_release_missing_refuted : stop_while_shared false.
+Proof. exact release_missing_witness. Qed.
+Print Assumptions C06_release_missing_refuted.
